@@ -262,4 +262,11 @@ structure RelW (h : Store) (w : Observer.W) : Prop where
   recv : ∃ i, h.get "_received_observer" = some (.ref "SequenceObserver" i)
   boss : ∃ i, h.get "_boss" = some (.ref "Boss" i)
 
+/-- storing `_closed = True` keeps the wiring; the model state only has to have `closed = true` -/
+theorem relW_closed {h : Store} {w w' : Observer.W} (R : RelW h w) (hc : w'.closed = true) :
+    RelW (h.set "_closed" (.bool true)) w' := by
+  refine ⟨by simp [get_set, hc], ?_, R.recv.imp fun _ hh => by simpa [get_set] using hh,
+    R.boss.imp fun _ hh => by simpa [get_set] using hh⟩
+  intro o; obtain ⟨i, hi⟩ := R.os o; exact ⟨i, by cases o <;> simpa [get_set, osAttr] using hi⟩
+
 end WV.Proofs.PyIRObs
